@@ -404,13 +404,16 @@ func (s *session) run(o runOpts) int {
 		it.mstate.observeVals = nil
 		it.mstate.lastNow = nil
 		it.mstate.manualClock = false
+		it.mstate.preemptive = false
 		it.mstate.universe = nil
 		it.mstate.fakeDigests = 0
 		it.curFrame = nil
+		it.resetScheduler()
+		defer it.killGoroutines()
 		it.vectorPos = 0
 		// merge decisions must be a function of the path alone (re-execution replays them)
 		it.noMerge = map[*ssa.If]bool{}
-		it.callSSA(nil, 0, hfn, nil, nil)
+		it.callSSA(&frame{it: it, g: it.sched.main}, 0, hfn, nil, nil)
 		if len(it.mstate.observe) > 0 && len(ex.Observed) == 0 {
 			ex.Observed = append([]string{}, it.mstate.observe...)
 		}
